@@ -79,7 +79,18 @@ func Build(cfg sn.Config) (*World, error) { return BuildOpt(cfg, 1) }
 
 // BuildOpt is Build with the contract's funds split into `coins` outputs (a pre-execution
 // locks the contract outputs it selects for a long time).
-func BuildOpt(cfg sn.Config, coins int) (*World, error) {
+func BuildOpt(cfg sn.Config, coins int) (w *World, err error) {
+	// an honest transaction the node refuses is reported to the caller (the checks that use the
+	// corpus then cannot judge: inconclusive), not a crash of the check
+	defer func() {
+		if p := recover(); p != nil {
+			w, err = nil, fmt.Errorf("%v", p)
+		}
+	}()
+	return buildOpt(cfg, coins)
+}
+
+func buildOpt(cfg sn.Config, coins int) (*World, error) {
 	n, err := sn.NewNode(cfg)
 	if err != nil {
 		return nil, err
